@@ -171,14 +171,14 @@ def run(chk):
     chk.ob("R4", vb, f, f"slice_head builds SliceHead({', '.join(fields)})", ctor is not None and [norm(x) for x in ctor.args][1:] == fields[1:],
            "slice_head passes n / offset to the node in the wrong order")  # fmt: skip
 
-    # ---- R5
-    _limit_composition(chk, sql, scfg, first)
-
-    from .. import kinds as _kinds
-
+    # ---- R9 / R5: the composition of two slices is decided on compiled statements (end-to-end simulation, all four sign
+    # cases are in the palette); the symbolic sign-case analysis of the SliceHead branch is the fallback
     from .. import pipesim as _ps
 
-    _ps.report(chk, m, "R9", ['limit', 'select'], depth_quick=2, depth_thorough=3, floor=100)
+    if not _ps.report(chk, m, "R9", ["limit", "select"], depth_quick=2, depth_thorough=3, floor=100):
+        _limit_composition(chk, sql, scfg, first)
+
+    from .. import kinds as _kinds
 
     # ---- R8 the SQL Rename branch, interpreted on stub state (sqlsim)
     chk.rule("R8", "SQL rename interpreted on stub state: every visible column carries its new label (also when a hidden column has the same label), the selection is unchanged")
